@@ -19,6 +19,8 @@ pub struct StepInfo {
     pub soft_mismatch: bool,
     /// the call met adjacent text nodes while consolidation is on
     pub dirty_text_state: bool,
+    /// violations that do not keep the step from being committed (accessor disagreements)
+    pub soft_violations: Vec<Violation>,
     pub err_text: String,
     pub failed_post: Option<Box<World>>,
 }
@@ -386,7 +388,14 @@ pub fn step(w: &mut World, sid: u32, op: &Op, cfg: &StepCfg) -> StepInfo {
 
 /// Execute one operation on `w2` itself (moved in). `w` is an untouched copy of
 /// the state before. Returns the new world if nothing was violated.
-pub fn step_owned(mut w2: World, w: &World, sid: u32, op: &Op, cfg: &StepCfg) -> (Option<World>, StepInfo) {
+pub fn step_owned(w2: World, w: &World, sid: u32, op: &Op, cfg: &StepCfg) -> (Option<World>, StepInfo) {
+    let _ = crate::world::take_soft();
+    let (res, mut info) = step_owned_inner(w2, w, sid, op, cfg);
+    info.soft_violations = crate::world::take_soft();
+    (res, info)
+}
+
+fn step_owned_inner(mut w2: World, w: &World, sid: u32, op: &Op, cfg: &StepCfg) -> (Option<World>, StepInfo) {
     let mut info = StepInfo::default();
     if !args_live(w, op) {
         info.outcome = "skipped";
@@ -514,6 +523,19 @@ pub fn step_owned(mut w2: World, w: &World, sid: u32, op: &Op, cfg: &StepCfg) ->
                         info.violations.push(v);
                         return fail(w2, info, cfg);
                     }
+                    // (after the read-back, so that structural damage is reported as such first)
+                    if matches!(pred, Pred::Refuse) {
+                        // the model refuses exactly what the documentation says is refused (on the
+                        // unchanged tree the two agree on every call of every batch): a success here
+                        // is a state that the operation does not produce on the model
+                        info.violations.push(Violation::new(
+                            "C05",
+                            "accepted-call-the-model-refuses",
+                            format!("{} succeeded although its arguments do not meet the documented preconditions [cell {}]", op.name(), info.cell),
+                        ));
+                        return fail(w2, info, cfg);
+                    }
+
                     if let Op::Parse { .. } = op {
                         // remember xml:id values of the new document
                         if let Some(r) = ret_l {
@@ -540,6 +562,34 @@ pub fn step_owned(mut w2: World, w: &World, sid: u32, op: &Op, cfg: &StepCfg) ->
             if let Err(v) = check_xml_ids(&w2) {
                 info.violations.push(v);
                 return fail(w2, info, cfg);
+            }
+            // the xml:id index is store-wide state: a call leaves the lookups of every document it has
+            // nothing to do with as they were (a clone call: of every document)
+            {
+                let mut involved: BTreeSet<Lid> = BTreeSet::new();
+                if !matches!(op, Op::CloneNode { .. } | Op::CloneWithPrefixes { .. }) {
+                    for a in op.node_args() {
+                        involved.insert(w.model.root_of(a));
+                        if w2.model.exists_live(a) {
+                            involved.insert(w2.model.root_of(a));
+                        }
+                    }
+                }
+                for (doc, value) in &w.xml_ids {
+                    if involved.contains(doc) || !w.model.exists_live(*doc) || !w2.model.exists_live(*doc) {
+                        continue;
+                    }
+                    let before = w.xot.xml_id_node(w.h(*doc), value);
+                    let after = w2.xot.xml_id_node(w2.h(*doc), value);
+                    if before != after {
+                        info.violations.push(Violation::new(
+                            "C05",
+                            "foreign-tree-touched",
+                            format!("{} changed xml_id_node({:?}, {:?}) of a document it does not involve: {:?} -> {:?} [cell {}]", op.name(), doc, value, before, after, info.cell),
+                        ));
+                        return fail(w2, info, cfg);
+                    }
+                }
             }
             (Some(w2), info)
         }
